@@ -30,6 +30,102 @@ def frozen_functions() -> Dict[str, List[str]]:
     return _FROZEN
 
 
+def _simple_generator(fn: ast.FunctionDef) -> bool:
+    """<statements>; for T in IT: <statements>; yield E      (one yield, last statement of the only top-level loop)"""
+    a = fn.args
+    if a.vararg or a.kwarg or a.posonlyargs:
+        return False
+    body = list(fn.body)
+    if body and isinstance(body[0], ast.Expr) and isinstance(body[0].value, ast.Constant) and isinstance(body[0].value.value, str):
+        body = body[1:]
+    if not body or not isinstance(body[-1], ast.For) or body[-1].orelse:
+        return False
+    lp = body[-1]
+    ys = [n for n in ast.walk(fn) if isinstance(n, (ast.Yield, ast.YieldFrom))]
+    if len(ys) != 1 or not isinstance(ys[0], ast.Yield) or ys[0].value is None:
+        return False
+    last = lp.body[-1]
+    if not (isinstance(last, ast.Expr) and last.value is ys[0]):
+        return False
+    if any(isinstance(n, (ast.Return, ast.Global, ast.Nonlocal, ast.FunctionDef, ast.Lambda, ast.Break, ast.Continue)) and n is not fn
+           for n in ast.walk(fn)):
+        return False
+    return True
+
+
+def _contains_return(stmts) -> bool:
+    return any(isinstance(n, ast.Return) for s in stmts for n in ast.walk(s))
+
+
+def _always_returns(stmts) -> bool:
+    for s in stmts:
+        if isinstance(s, (ast.Return, ast.Raise)):
+            return True
+        if isinstance(s, ast.If) and s.orelse and _always_returns(s.body) and _always_returns(s.orelse):
+            return True
+    return False
+
+
+def _to_single_exit(stmts, rname='__ret'):
+    """rewrite guard-clause style early returns (returns only in `if` tails, never inside loops / try / with) into assignments to
+    `rname` on every path; returns the new statement list or None when the shape is not supported"""
+    out = []
+    for i, s in enumerate(stmts):
+        if isinstance(s, ast.Return):
+            val = s.value if s.value is not None else ast.Constant(value=None)
+            return out + [ast.copy_location(ast.Assign(targets=[ast.Name(id=rname, ctx=ast.Store())], value=val), s)]
+        if isinstance(s, ast.If) and _contains_return([s]):
+            body_c = _to_single_exit(s.body, rname) if _contains_return(s.body) else list(s.body)
+            else_c = _to_single_exit(s.orelse, rname) if _contains_return(s.orelse) else list(s.orelse)
+            if body_c is None or else_c is None:
+                return None
+            rest = _to_single_exit(stmts[i + 1:], rname)
+            if rest is None:
+                return None
+            b_ret, e_ret = _always_returns(s.body), _always_returns(s.orelse)
+            if _contains_return(s.body) and not b_ret:
+                return None
+            if _contains_return(s.orelse) and not e_ret:
+                return None
+            if b_ret and e_ret:
+                new = ast.If(test=s.test, body=body_c, orelse=else_c)
+            elif b_ret:
+                new = ast.If(test=s.test, body=body_c, orelse=else_c + rest)
+            else:
+                new = ast.If(test=s.test, body=body_c + rest, orelse=else_c)
+            return out + [ast.copy_location(new, s)]
+        if _contains_return([s]):
+            return None          # a return inside a loop / try / with
+        out.append(s)
+    # fell off the end: returns None
+    return out + [ast.Assign(targets=[ast.Name(id=rname, ctx=ast.Store())], value=ast.Constant(value=None))]
+
+
+def _normalised_helper(fn: ast.FunctionDef) -> Optional[ast.FunctionDef]:
+    """fn itself when it is single-exit, a rewritten copy when its early returns can be folded, else None"""
+    if _single_exit(fn):
+        return fn
+    a = fn.args
+    if a.vararg or a.kwarg or a.posonlyargs:
+        return None
+    for n in ast.walk(fn):
+        if isinstance(n, (ast.Yield, ast.YieldFrom, ast.Global, ast.Nonlocal, ast.AsyncFunctionDef)):
+            return None
+        if isinstance(n, (ast.FunctionDef, ast.Lambda)) and n is not fn:
+            return None
+    body = list(fn.body)
+    doc = []
+    if body and isinstance(body[0], ast.Expr) and isinstance(body[0].value, ast.Constant) and isinstance(body[0].value.value, str):
+        doc, body = body[:1], body[1:]
+    conv = _to_single_exit(copy.deepcopy(body))
+    if conv is None:
+        return None
+    new = copy.deepcopy(fn)
+    new.body = doc + conv + [ast.Return(value=ast.Name(id='__ret', ctx=ast.Load()))]
+    ast.fix_missing_locations(new)
+    return new
+
+
 def _single_exit(fn: ast.FunctionDef) -> bool:
     a = fn.args
     if a.vararg or a.kwarg or a.posonlyargs:
@@ -95,8 +191,13 @@ def _expand(call: ast.Call, helper: ast.FunctionDef, tag: str, at: ast.stmt):
             defaulted.append(p)
     DEFAULTED.append((helper.name, tuple(defaulted), at.lineno, call))
     mapping = {n: f'__{tag}_{n}' for n in _locals_of(helper)}
+    stored = {n.id for n in ast.walk(helper) if isinstance(n, ast.Name) and isinstance(n.ctx, (ast.Store, ast.Del))}
     pre: List[ast.stmt] = []
     for p in allp:
+        if isinstance(bound[p], ast.Name) and p not in stored:
+            # a parameter that is only read and receives a plain variable: use the caller's variable itself (no alias)
+            mapping[p] = bound[p].id
+            continue
         st = ast.Assign(targets=[ast.Name(id=mapping[p], ctx=ast.Store())], value=bound[p])
         pre.append(st)
     body = copy.deepcopy(helper.body)
@@ -129,8 +230,9 @@ def _expand(call: ast.Call, helper: ast.FunctionDef, tag: str, at: ast.stmt):
 
 
 class _Inliner:
-    def __init__(self, helpers: Dict[str, ast.FunctionDef]):
+    def __init__(self, helpers: Dict[str, ast.FunctionDef], generators: Optional[Dict[str, ast.FunctionDef]] = None):
         self.helpers = helpers
+        self.generators = generators or {}
         self.counter = 0
         self.done = 0
         self.defaulted: List = []
@@ -170,9 +272,64 @@ class _Inliner:
             walk(e)
         return out
 
+    def _fuse_generator(self, s: ast.For, owner: str):
+        """for T in gen(args): B   ->   <gen prologue>; for T' in IT': <gen loop body>; T = <yielded>; B"""
+        c = s.iter
+        if not (isinstance(c, ast.Call) and isinstance(c.func, ast.Name) and c.func.id in self.generators) or s.orelse:
+            return None
+        g = self.generators[c.func.id]
+        if g.name == owner:
+            return None
+        self.counter += 1
+        tag = f'g{self.counter}'
+        fake = copy.deepcopy(g)
+        body = list(fake.body)
+        if body and isinstance(body[0], ast.Expr) and isinstance(body[0].value, ast.Constant) and isinstance(body[0].value.value, str):
+            body = body[1:]
+        lp = body[-1]
+        yielded = lp.body[-1].value.value
+        lp.body = lp.body[:-1]
+        # reuse _expand's binding logic through a synthetic single-exit function: prologue + loop, returning nothing
+        fake.body = body
+        ex = _expand(c, fake, tag, s)
+        if ex is None:
+            return None
+        pre, _ = ex
+        DEFAULTED.pop()
+        new_loop = pre[-1]
+        mapping_loop = new_loop
+        # the yielded expression with the same renaming: expand again with a return of the yielded value
+        fake2 = copy.deepcopy(g)
+        b2 = list(fake2.body)
+        if b2 and isinstance(b2[0], ast.Expr) and isinstance(b2[0].value, ast.Constant) and isinstance(b2[0].value.value, str):
+            b2 = b2[1:]
+        fake2.body = [ast.Return(value=copy.deepcopy(b2[-1].body[-1].value.value))]
+        # locals of the whole generator must be renamed identically: give fake2 the same set of locals by keeping dummy stores
+        fake2.body = [ast.Assign(targets=[ast.Name(id=n, ctx=ast.Store())], value=ast.Constant(value=None)) for n in sorted(_locals_of(g))
+                      if n not in {a.arg for a in g.args.args + g.args.kwonlyargs}] + fake2.body
+        ex2 = _expand(c, fake2, tag, s)
+        if ex2 is None:
+            return None
+        DEFAULTED.pop()
+        _, yexpr = ex2
+        bind = ast.Assign(targets=[copy.deepcopy(s.target)], value=yexpr)
+        for t in ast.walk(bind.targets[0]):
+            if isinstance(t, (ast.Name, ast.Tuple, ast.List, ast.Starred)):
+                t.ctx = ast.Store()
+        ast.copy_location(bind, s)
+        mapping_loop.body = list(mapping_loop.body) + [bind] + list(s.body)
+        ast.fix_missing_locations(mapping_loop)
+        self.done += 1
+        return pre
+
     def block(self, body: List[ast.stmt], owner: str) -> List[ast.stmt]:
         new: List[ast.stmt] = []
         for s in body:
+            if isinstance(s, ast.For) and self.generators:
+                fused = self._fuse_generator(s, owner)
+                if fused is not None:
+                    new += self.block(fused, owner)
+                    continue
             # nested blocks first
             for fld in ('body', 'orelse', 'finalbody'):
                 if hasattr(s, fld) and isinstance(getattr(s, fld), list) and not isinstance(s, (ast.FunctionDef, ast.ClassDef)):
@@ -222,12 +379,18 @@ def inline_new_helpers(tree: ast.Module, module: str) -> int:
     if module not in frozen:
         return 0                      # a new module: nothing is anchored in it
     known = set(frozen[module])
-    helpers = {n.name: n for n in tree.body if isinstance(n, ast.FunctionDef) and n.name not in known and _single_exit(n)}
-    if not helpers:
-        return 0
-    inl = _Inliner(helpers)
+    helpers = {}
     for n in tree.body:
-        if isinstance(n, ast.FunctionDef) and n.name not in helpers:
+        if isinstance(n, ast.FunctionDef) and n.name not in known:
+            h = _normalised_helper(n)
+            if h is not None:
+                helpers[n.name] = h
+    generators = {n.name: n for n in tree.body if isinstance(n, ast.FunctionDef) and n.name not in known and _simple_generator(n)}
+    if not helpers and not generators:
+        return 0
+    inl = _Inliner(helpers, generators)
+    for n in tree.body:
+        if isinstance(n, ast.FunctionDef) and n.name not in helpers and n.name not in generators:
             n.body = inl.block(n.body, n.name)
         elif isinstance(n, ast.ClassDef):
             for m in n.body:
